@@ -38,6 +38,13 @@ MENU = [
     ["for x in (3, 1):", "    assert x >= snapshot(2)"],
     ["assert defaultdict(list, {1: [2]}) == snapshot(defaultdict(list))"],
     ["assert NT(a=1, b=[2]) == snapshot(NT(a=1, b=[]))"],
+    # nested snapshots behind / before a wrong element of the container that holds them
+    ["assert [1, 2, 3] == snapshot([5, snapshot(), 3])"],
+    ["assert [1, 2] == snapshot([1, snapshot(5)])"],
+    ['assert {"a": 1, "b": 2} == snapshot({"a": 0, "b": snapshot()})'],
+    ["assert (1, [2], 3) == snapshot((0, [snapshot()], snapshot(4)))"],
+    ["assert DC(x=1, y=2) == snapshot(DC(x=0, y=snapshot()))"],
+    ["assert [snapshot(1), 7] == [1, 7]", "assert [0, [1, 2]] == snapshot([9, [snapshot(), snapshot(3)]])"],
 ]
 # a test whose comparison raises inside the list alignment must not disturb the snapshots of later tests
 RAISING_FIRST = ("class Strict:\n    def __init__(self, n):\n        self.n = n\n    def __eq__(self, other):\n        if not isinstance(other, Strict):\n"
